@@ -74,6 +74,7 @@ type ILine struct {
 // Datadog logs
 type DDLog struct {
 	Tags     []KV  `json:"tags"`
+	TagsText *Str  `json:"tags_text,omitempty"` // the ddtags text as sent, when it is not the plain k:v,k:v writing of Tags
 	Source   *Str  `json:"ddsource,omitempty"`
 	Service  *Str  `json:"service,omitempty"`
 	Hostname *Str  `json:"hostname,omitempty"`
@@ -176,8 +177,9 @@ type Case struct {
 	TTLMulti int    `json:"ttl_multi,omitempty"`
 	Coq      string `json:"coq,omitempty"`
 
-	Damage bool   `json:"damage,omitempty"` // Loki JSON: one edit is applied to the document tree before it is rendered
-	CoqJ   string `json:"coqj,omitempty"`   // Loki JSON: the case with its document tree (jcase of coq/model/LokiJson.v)
+	Damage   bool   `json:"damage,omitempty"` // Loki JSON: one edit is applied to the document tree before it is rendered
+	CoqJ     string `json:"coqj,omitempty"`   // Loki JSON / Datadog logs: the case with its document tree (jcase of coq/model/LokiJson.v, dcase of DatadogJson.v)
+	TreeKind string `json:"tree_kind,omitempty"`
 
 	members [][]member // Loki JSON: the members of every stream object in the order they were written
 	doc     *JV        // Loki JSON: the document
@@ -471,6 +473,17 @@ func run(c *Case) {
 	if c.Proto == "loki_json" && c.doc != nil {
 		rfc, ls, ds := docOracles(*c.doc)
 		c.CoqJ = fmt.Sprintf("JCase (%s)\n    %s %v %s %s %s", c.Coq, c.doc.coq(), !c.Damage, rfc, ls, ds)
+		c.TreeKind = "jcase"
+	}
+	if c.Proto == "ddlog" && c.doc != nil {
+		written := !c.Damage
+		for _, e := range c.Body.DDLog {
+			if e.TagsText != nil {
+				written = false
+			}
+		}
+		c.CoqJ = fmt.Sprintf("DCase (%s)\n    %s %v %s", c.Coq, c.doc.coq(), written, tagLetters(*c.doc))
+		c.TreeKind = "dcase"
 	}
 }
 
@@ -539,7 +552,12 @@ func main() {
 		// small Loki JSON documents only, two of three with one edit in the tree: volume for the walk of model/LokiJson.v
 		for i := 0; i < f.N; i++ {
 			c := Case{ID: 3000000 + i, WSeed: r.Int63(), Proto: "loki_json"}
-			genLoki(r, &c, false)
+			if i%5 >= 3 { // two of five are Datadog log documents (walk of model/DatadogJson.v)
+				c.Proto = "ddlog"
+				genDDLog(r, &c)
+			} else {
+				genLoki(r, &c, false)
+			}
 			if i%3 != 0 {
 				c.Damage = true
 				flag(&c, "damaged-document")
